@@ -38,6 +38,14 @@ class Sim:
         # faults: list of {"at": global solve index, "kind": ...}
         self.faults = {f["at"]: f for f in cfg.get("faults", [])}
         self.monitor = cfg.get("monitor", True)
+        # workload bound: beyond this many solves (or seconds) the segment is abandoned:
+        # every further solve is answered INFEASIBLE at once and the plan is discarded
+        self.max_solves = cfg.get("max_solves", 300)
+        self.max_wall = cfg.get("max_wall", 60.0)
+        self.budget_exceeded = False
+        import time as _t
+
+        self._t0 = _t.monotonic()
         # --- counters / logs
         self.solve_index = 0
         self.events = []
@@ -172,6 +180,14 @@ class SolverProxy:
     # -- the interesting part -----------------------------------------------
     def Solve(self, *a, **k):
         self._restore()
+        if not SIM.budget_exceeded:
+            import time as _t
+
+            if SIM.solve_index >= SIM.max_solves or _t.monotonic() - SIM._t0 > SIM.max_wall:
+                SIM.budget_exceeded = True
+        if SIM.budget_exceeded:
+            self._real_status = REAL.Solver.INFEASIBLE
+            return REAL.Solver.INFEASIBLE
         idx = SIM.solve_index
         SIM.solve_index += 1
         self._nsolve += 1
@@ -363,6 +379,10 @@ def install_stage_recorders():
                 entry["solve_to"] = SIM.solve_index
                 raise
             entry["ret"] = r
+            try:
+                entry["ret_scores"] = [float(x.score) for x in r]
+            except Exception:
+                entry["ret_scores"] = None
             entry["solve_to"] = SIM.solve_index
             return r
 
